@@ -14,7 +14,7 @@
 From Coq Require Import List String ZArith Bool.
 Import ListNotations.
 From KV Require Import Base.Bytes Model.Ast Model.Value Model.Eval Model.Checker
-                       Spec.Typing Proofs.CheckerProofs Proofs.TypeSafetyProofs.
+                       Spec.Typing Proofs.CheckerProofs Proofs.SelectProofs Proofs.TypeSafetyProofs.
 Open Scope string_scope.
 
 (* Soundness of the checker, for every expression tree the parser can build (no field
@@ -50,10 +50,27 @@ Theorem check_complete : forall (fo : fops) (ctx : cctx) (e : expr) (t : sty) (a
 Proof. intros fo ctx e. exact (complete_expr fo ctx e). Qed.
 Print Assumptions check_complete.
 
-(* Whole statements: DELETE, REMOVE, PUT (the statement forms without field names).
-   SELECT is covered by the two expression theorems applied to its WHERE clause and its
-   fields under the CheckCtx the parser builds (see props/C14.json for what is missing to
-   state it as one theorem). *)
+(* Whole statements through build_check = Parser.Parse's checks + the call validation of
+   BuildPlan: SELECT (fields with names, WHERE, ORDER BY), PUT, REMOVE, DELETE, against
+   [stmt_typed] (Spec/Typing.v: select_typed / put_typed / remove_typed / delete_typed).
+   _partial: [stmt_fields_plain] -- the field definitions of a SELECT use no field names
+   themselves (names in WHERE and ORDER BY are covered; a field that refers to another field is
+   rewritten in place by the Go checker and is C05's subject); GROUP BY and the consistency
+   rules of the aggregation plan are outside the twin.
+   Full statement (not proved): the same without stmt_fields_plain and with GROUP BY. *)
+Theorem build_check_sound_partial : forall (fo : fops) (s s2 : stmt),
+  build_check fo true s = Ok s2 -> stmt_no_refs s = true -> stmt_params_static s2 = true ->
+  stmt_fields_plain s -> stmt_typed fo s = true.
+Proof. exact build_check_sound. Qed.
+Print Assumptions build_check_sound_partial.
+
+Theorem build_check_complete_partial : forall (fo : fops) (s : stmt),
+  stmt_typed fo s = true -> stmt_no_same_field s = true -> stmt_fields_plain s ->
+  exists s2, build_check fo true s = Ok s2.
+Proof. exact build_check_complete. Qed.
+Print Assumptions build_check_complete_partial.
+
+(* the statement forms without field names, no side condition on fields *)
 Theorem delete_check_sound : forall (fo : fops) (w : expr) (s2 : stmt),
   build_check fo true (SDelete w) = Ok s2 -> no_refs w = true -> stmt_params_static s2 = true ->
   delete_typed fo w = true.
@@ -170,6 +187,18 @@ Example fault_in_list_rejected :
           (EList 46 [EStr 50 "a"; ECall 55 (EName 55 "upper") [EBin 67 OAdd (EField 61 ValueKW) (ENum 69 "1")]])))
   = Err (ESyntax 61).
 Proof. vm_compute. reflexivity. Qed.
+
+(* select int(value) as n where !(n > 1) & key in ('a', upper(value)) order by n: the premises
+   of build_check_sound_partial hold and the statement is typed *)
+Example build_check_sound_nonvacuous :
+  let s := SSelect (c_names ex_ctx) ex_where [(70, "n")] in
+  (exists s2, build_check no_floats true s = Ok s2 /\ stmt_params_static s2 = true) /\
+  stmt_no_refs s = true /\ stmt_fields_plain s /\ stmt_no_same_field s = true /\
+  stmt_typed no_floats s = true.
+Proof.
+  cbn zeta. split; [eexists; split; vm_compute; reflexivity|].
+  split; [reflexivity|]. split; [repeat constructor|]. split; reflexivity.
+Qed.
 
 Example put_complete_nonvacuous :
   put_typed no_floats [(EStr 5 "k", EBin 18 OAdd (EStr 10 "v") (EField 20 KeyKW))] = true /\
